@@ -1,17 +1,48 @@
 # C05 — memory and db metadata stores expose the same filesystem
 PROPS["C05"] = dict(
     props_file="Properties/C05.v",
-    harnesses=[dict(cmd="stores", mod="cmdmod", model="Model.TreeStores", quick=140, thorough=6000, shard=24, coq_jobs=8,
+    harnesses=[dict(cmd="stores", mod="cmdmod", model="Model.TreeStores", quick=100, thorough=5000, shard=20, coq_jobs=8,
                     preamble="Open Scope Z_scope.",
                     require=["toc.builder-output", "toc.implicit-parent", "toc.repeated-dir", "toc.dir-after-child",
                              "toc.hardlink-to-hardlink", "toc.root-entry", "toc.respelled-name", "toc.empty-xattr",
                              "toc.no-file-digest", "toc.no-chunk-digest", "toc.inner-offset", "toc.multi-chunk",
-                             "toc.trailing-bytes", "toc.trailing-bytes.long", "toc.forward-hardlink",
-                             "result.reject.db", "result.accept.both", "layers.shared-db", "layers.bad-neighbour"])],
-    rule="TBD",
-    assumptions=[],
-    level_text="TBD",
-    level_note="TBD",
-    technique="TBD",
-    trusted=[],
+                             "toc.trailing-bytes", "toc.trailing-bytes.long", "toc.forward-hardlink", "toc.empty",
+                             "result.reject.db", "result.reject.memory", "result.accept.both",
+                             "layers.shared-db", "layers.bad-neighbour", "op.prereader.callbacks"])],
+    rule="a random tar (dirs, files of 0..4 chunks, symlinks, hardlinks incl. chains, devices, fifos, xattrs incl. empty values, "
+         "name prefixes ./ / ../) is converted by the real estargz.Writer (gzip level, ChunkSize 16..300 or default, MinChunkSize "
+         "0..5000 = inner-offset streams); its TOC is decoded and mutated (0..4 ops: drop a dir entry = implicit parent, repeat a dir "
+         "entry with other attributes, move an entry, respell names, add hardlinks to hardlinks, explicit root entry, drop digests, "
+         "add xattrs, set modtimes, explicit/implicit last chunk size; 1 in 12 cases one malformed op: dangling hardlink, hardlink "
+         "to a directory, chunk table with a gap, swapped chunks, chunk first) and re-wrapped with 0..9000 bytes of trailing whitespace; "
+         "both stores open it (db: up to 4 layers opened concurrently in ONE bolt file under a random open/close history, optionally with "
+         "a failing neighbour layer) and are walked completely (RootID, GetAttr, GetChild, ForeachChild, GetOffset, OpenFile + "
+         "ChunkEntryForOffset at every chunk boundary +-1, ReadAt, OpenFileWithPreReader, Clone, Close, TOCDigest); "
+         "non-trivial = accepted by memory with >= 4 nodes; distinct = distinct Coq case term",
+    assumptions=[
+        "JSON decoding (encoding/json in estargz vs goccy/go-json in the db store), gzip/tar framing of the TOC and time.Parse are not modelled: "
+        "the model starts from the decoded entry list; both decoders are run on the same bytes by the harness",
+        "Go map iteration order: where the db store stores the 'first' xattr/child apart from the extras bucket, what is read back is a map "
+        "again, so the model keeps the list (the walk sorts children by name on both sides)",
+        "bbolt transactions are atomic and isolated (db.Update); after fix-1 initNodes no longer depends on Batch re-running it",
+        "the byte path (ReadAt through gzip members, nextOffset, inner-offset streams, pre-reader callbacks) is compared store-vs-store and "
+        "against the source files by the oracle only; it is property C02's subject and not in the Coq model",
+        "background initialisation of the db reader: only its before/after states are modelled (GetAttr(root) before = F13)",
+        "os.FileMode.IsRegular is modelled as mode < 2^24 (true for every mode TOCEntry.Stat().Mode() can produce)",
+    ],
+    level_text="Coq theorems for all inputs: the db store's attribute codec is the identity on the attributes both stores derive with the same "
+               "function (incl. empty xattrs, NumLink 0=1); for every file whose chunks tile it, the chunk table the db store recomputes from "
+               "neighbouring offsets equals the TOC's and ChunkEntryForOffset agrees at every offset >= 0; TOC digests agree for any decoder "
+               "read-ahead; both stores accept every hardlink-free TOC; for every history of open/close/query on other layers of one database "
+               "a live layer's view is unchanged and open never reuses a live id. The full tree-equality statement is refuted on the faithful "
+               "models by five classes (one vm_compute witness each, each reproduced on the real code as a known finding); tree equality outside "
+               "those classes is NOT proved (open simulation proof) and is covered by the correspondence check + store-vs-store oracle only.",
+    level_note="Both interpreters (estargz initFields + metadata/memory; db initNodes/writeAttr/readAttr/readChunks) are hand-modelled in "
+               "coq/Model/TreeStores.v and evaluated inside Coq on every generated TOC against the views observed on the real stores. "
+               "Eight minimal repairs were made to /repo (patches/C05-fix-1..8), the model follows the repaired code.",
+    technique="Coq proofs (induction over chunk tables / histories / TOCs) + vm_compute counterexamples; differential correspondence of two "
+              "executable models against the two real stores; store-vs-store oracle on the real code",
+    trusted=["metadata/memory + estargz.initFields and cmd/containerd-stargz-grpc/db are modelled by hand in coq/Model/TreeStores.v; tie = complete "
+             "canonical view (path, attrs, xattrs, link count, offset, hardlink identity, openable, ChunkEntryForOffset probes) per store",
+             "tree equality of the two models for conforming TOCs outside the refuted classes is checked per case, not proved"],
 )
